@@ -664,7 +664,6 @@ func c12Sentinel(c *Ctx, r *Result, haveClear bool, clearVal ssa.Value) {
 	r.Instance("R12d", site, "", "ok", fmt.Sprintf("free value %d < first thread id %d; the id counter is only incremented (%d stores)", sentinel, min, n), true)
 }
 
-
 // fromLookupHelper: v is result #0 of a static helper whose every returned value #0 comes from the
 // given map field (a get-or-create lookup moved into a helper). Returns the call.
 func fromLookupHelper(c *Ctx, v ssa.Value, f *types.Var) *ssa.Call {
